@@ -610,7 +610,7 @@ func c01Check(c *eng.Case) *eng.Outcome {
 			case "url-relative":
 				u = "a/2"
 			}
-			pi = eng.Protect(func() { res, err = distiller.ApplyForURL(u, 2*time.Second, c01Opts(c)) })
+			pi = eng.Protect(func() { res, err = distiller.ApplyForURL(u, 5*time.Minute, c01Opts(c)) })
 			http.DefaultTransport = old
 		}
 	case "attrval":
